@@ -1143,6 +1143,107 @@ func runHashPrimitives(c *Ctx, prims map[*ssa.Function]string) {
 		}
 	}
 	c.Check(len(writers) == 0, "H4", "gtfs", "direct hash writes", "-", "hash.Hash.Write is called only in flush and string", "hash.Hash.Write called outside flush/string, bypassing the buffer order: "+strings.Join(writers, "; "))
+	// H2: times take part in the hash as instants only: the hasher never compares two time.Time values as structs
+	// (`==` also compares the zone pointer and the monotonic reading, so which encoding path is taken would depend on
+	// the presentation of the time)
+	{
+		var cmp []string
+		n := 0
+		for _, hf := range hashFns(c) {
+			for _, b := range hf.Blocks {
+				for _, in := range b.Instrs {
+					bo, ok := in.(*ssa.BinOp)
+					if !ok || (bo.Op != token.EQL && bo.Op != token.NEQ) {
+						continue
+					}
+					n++
+					if typeName(bo.X.Type()) == "time.Time" {
+						if _, isPtr := bo.X.Type().Underlying().(*types.Pointer); !isPtr {
+							cmp = append(cmp, shortName(hf)+" at "+p.ipos(bo))
+						}
+					}
+				}
+			}
+		}
+		c.Check(len(cmp) == 0, "H2", "gtfs", "times are compared as instants only", "-", fmt.Sprintf("none of the %d equality tests of the hasher compares time.Time structs", n), "time.Time values are compared with == ("+strings.Join(cmp, "; ")+"): equal instants presented in different zones compare unequal, so the hash depends on the zone presentation")
+	}
+	// H4: what the number encoder is given to write into takes everything it is handed: the destination of binary.Write
+	// is a growable buffer of the standard library (or the hash itself), or -- when the module stages the bytes itself
+	// -- a Write method that consumes its whole argument: a `copy` into fixed storage is repeated for the rest of the
+	// argument (a loop that re-slices it by what was copied), otherwise the tail of a number that straddles the end of
+	// the storage never reaches the hash
+	{
+		nDest, bad := 0, ""
+		for _, fn := range c.P.ModFns {
+			if fnPkgPath(fn) != modPath {
+				continue
+			}
+			for _, b := range fn.Blocks {
+				for _, in := range b.Instrs {
+					call, ok := in.(*ssa.Call)
+					if !ok || calleeName(call) != "encoding/binary.Write" || len(call.Call.Args) == 0 {
+						continue
+					}
+					inHasher := false
+					for _, hf := range hashFns(c) {
+						if hf == fn {
+							inHasher = true
+						}
+					}
+					if !inHasher {
+						continue
+					}
+					nDest++
+					dst := call.Call.Args[0]
+					if mi, isMI := dst.(*ssa.MakeInterface); isMI {
+						dst = mi.X
+					}
+					tn := typeName(dst.Type())
+					if tn == "bytes.Buffer" || strings.HasPrefix(tn, "hash.") {
+						continue
+					}
+					// a writer of the module: its Write method
+					var wr *ssa.Function
+					for _, g := range c.P.ModFns {
+						if g.Name() == "Write" && g.Signature.Recv() != nil && typeName(g.Signature.Recv().Type()) == tn && len(g.Blocks) > 0 {
+							wr = g
+						}
+					}
+					if wr == nil {
+						bad = "binary.Write at " + p.ipos(call) + " writes into a " + tn + " whose Write method is not part of the module"
+						continue
+					}
+					loops := naturalLoops(wr)
+					for _, wb := range wr.Blocks {
+						for _, win := range wb.Instrs {
+							cp, isCall := win.(*ssa.Call)
+							if !isCall || !isBuiltin(cp, "copy") {
+								continue
+							}
+							// the copy must sit in a loop in which the source is re-sliced by the copied count
+							okLoop := false
+							for _, l := range loops {
+								if !l.Blocks[wb] {
+									continue
+								}
+								for lb := range l.Blocks {
+									for _, lin := range lb.Instrs {
+										if sl, isSl := lin.(*ssa.Slice); isSl && sl.Low == ssa.Value(cp) {
+											okLoop = true
+										}
+									}
+								}
+							}
+							if !okLoop {
+								bad = shortName(wr) + " copies its argument into fixed storage once (" + p.ipos(cp) + ") and reports all of it as written: what does not fit is dropped from the hash input"
+							}
+						}
+					}
+				}
+			}
+		}
+		c.Check(bad == "" && nDest > 0, "H4", "gtfs", "the staging writer takes all it is handed", "-", fmt.Sprintf("%d binary.Write destinations: growable standard buffers, or module writers that consume their whole argument", nDest), bad)
+	}
 	// H4: both Hash methods end with flush
 	for _, spec := range []string{"gtfs:(*Trip).Hash", "gtfs:(*Vehicle).Hash"} {
 		f := c.anchor(spec)
